@@ -128,6 +128,20 @@ PROPS = {
                    'L-net, L-dbl. Dimensions other than 2 are not covered.',
         technique='symbolic execution of the real CQ functor per generator + polynomial identities (z3); bounded '
                   'comparison of whole circuits with an independent superoperator simulator'),
+    'C13': dict(
+        title='Translation to and from tket preserves the meaning of circuits',
+        level='exploration',
+        vc=[], sym=[], rtc='C13',
+        level_text='Bounded stand-in (the sentence compares distributions computed on an external C++ circuit object; no '
+                   'contract within reach gives pytket circuits a semantics): circuits of depth <= 2 (thorough 3) over the gate '
+                   'set of the statement with preparations, post-selections and swaps at every depth are exported; the real '
+                   'pytket circuit is run on an independent exact branching simulator (rtc/tksim.py); discopy\'s own '
+                   'post-selection / scaling / post-processing code path is driven through a backend object returning exact '
+                   'frequencies and compared with the mixed evaluation; counts through the backend; from_tk(to_tk(c)); and all '
+                   'pytket circuits with <= 2 commands over the supported operations are imported and compared.',
+        level_note='No obligation proved. Trusted: pytket\'s get_commands / register bookkeeping, rtc/tksim.py. Known findings '
+                   'F20 (Discard of a bit not exported) and F22 (get_counts(backend) skips post-processing).',
+        technique='bounded run-time contracts against an independent exact simulator of the exported tket circuit'),
     'C14': dict(
         title='Substituting parameters commutes with evaluation',
         level='proof',
